@@ -99,4 +99,15 @@ def _reset(ctx, R):
 
 _reset.rule_id = "C06.RESET"
 
-RULES = [target, weights, round_rule, order, sort_rule, chain_rule, gap_rule, opts_rule, solve_rule, alllayers, _walls, _reset] + vpsc_pack.OPT + vpsc_pack.COST
+
+def _lz(mod, fn, rid):
+    def run(ctx, R):
+        import importlib
+        return getattr(importlib.import_module("sa.rules." + mod), fn)(ctx, R)
+
+    run.rule_id = rid
+    run.__name__ = fn
+    return run
+
+# optimality presupposes feasibility (VPSC.FEAS) and complete stub chains (targets come from the stub one layer below)
+RULES = [target, weights, round_rule, order, sort_rule, chain_rule, gap_rule, opts_rule, solve_rule, alllayers, _walls, _reset] + vpsc_pack.OPT + vpsc_pack.COST + vpsc_pack.FEAS + [_lz("c04", "stubchain_instance", "C04.STUBCHAIN"), _lz("c04", "stubchain", "C04.STUBCHAIN-ALL-N")]
